@@ -171,7 +171,7 @@ MUTATORS = [
     "unique_faces", "nondegenerate_faces", "process", "fix_normals", "fix_winding", "fix_inversion", "fill_holes",
     "convert_units", "edit_vertices", "edit_faces", "assign_vertices", "assign_faces", "density", "center_mass",
     "assign_face_normals", "assign_vertex_normals", "copy", "cache_clear", "reseed", "bad_transform", "bad_mask", "view_write",
-    "subdivide_inplace_like", "remove_degenerate", "remove_duplicate",
+    "subdivide_inplace_like", "remove_degenerate", "remove_duplicate", "smooth", "apply_obb", "update_vertices_inverse", "merge_then_unmerge",
 ]
 EDIT_V_ROUTES = ["item", "row", "slice", "mask", "fancy", "iadd", "isub", "imul", "itruediv", "put", "idiom_col", "idiom_rows", "fill_row", "sort"]
 EDIT_F_ROUTES = ["item", "swap_rows", "flip_row", "roll_row", "slice_assign"]
@@ -349,6 +349,8 @@ class C01(World):
             op.update({"i": rng.randrange(10**6), "value": rng.choice(["nan", "inf"])})
         elif kind == "bad_transform":
             op["shape"] = rng.choice([[3, 3], [4], [2, 4, 4], [4, 3]])
+        elif kind == "smooth":
+            op["cls"] = rng.choice(["laplacian", "taubin", "humphrey"])
         elif kind == "bad_mask":
             op["target"] = rng.choice(["faces", "vertices"])
             op["extra"] = rng.choice([1, 3])
@@ -612,6 +614,22 @@ class C01(World):
             if m.units is None:
                 raise Inapplicable()
             m.convert_units(op["to"])
+        elif k == "smooth":
+            # in-place filters driven by (memoisable) vertex neighbourhoods
+            fn = {"laplacian": trimesh.smoothing.filter_laplacian, "taubin": trimesh.smoothing.filter_taubin, "humphrey": trimesh.smoothing.filter_humphrey}[op["cls"]]
+            fn(m, iterations=2)
+        elif k == "apply_obb":
+            st["obb_" + which] = np.asarray(m.apply_obb())
+        elif k == "update_vertices_inverse":
+            # keep one representative per rounded position (the np.unique idiom update_vertices documents)
+            V = np.asarray(m.vertices)
+            if len(V) == 0:
+                raise Inapplicable()
+            _, first, inverse = np.unique(np.round(V, 3), axis=0, return_index=True, return_inverse=True)
+            m.update_vertices(first, inverse=np.asarray(inverse).reshape(-1))
+        elif k == "merge_then_unmerge":
+            m.merge_vertices(merge_norm=True, merge_tex=True)
+            m.unmerge_vertices()
         elif k == "edit_vertices":
             v = m.vertices
             route, d, i, j = op["route"], op["d"], a["i"], op["j"]
@@ -843,6 +861,9 @@ class C01(World):
             ctx.fail("O2-history", "mutator-outcome", f"{label}: mesh with reads -> {outcomes[0]}, read-free twin -> {outcomes[1]}")
         # model of explicit overrides
         M = self._model_overrides(op, st, pre)
+        if k == "apply_obb" and outcomes[0] == "ok":
+            # the matrix apply_obb reports having applied: an explicit centre-of-mass override must have moved with it
+            M = st.get("obb_main")
         if outcomes[0] == "ok" and M is not None and st["center_mass"] is not None:
             st["center_mass"] = mx.apply(M, np.array([st["center_mass"]]))[0].tolist()
         if outcomes[0] == "ok" and k == "convert_units":
